@@ -273,4 +273,18 @@ def backProject (g : DDNGraph) (T : List Mat) (rhs : BF) : BM :=
 
 def backProjectFV (g : DDNGraph) (T : List Mat) (fv : FV) : FM := fv.map (backProject g T)
 
+/-! ### learner updates (for the single-basis = flat equivalence)
+
+`CooperativeQLearning::stepUpdateQ` restricted to ONE basis whose actionTag names all `k` agents:
+`perAgentRews = rew / agentNormRews_`; `+= discount * Q(s1,a1) / k`; `+= -Q(s,a) / k`; `*= alpha`;
+`Q(s,a) += Σ_{a ∈ actionTag} perAgentRews[a]`. -/
+def coopPerAgent (alpha gamma q q1 : Rat) (k : Nat) (rew norm : List Rat) : List Rat :=
+  (rew.zip norm).map (fun rn => alpha * (rn.1 / rn.2 + gamma * q1 / (k : Rat) + (-q) / (k : Rat)))
+
+def coopUpdateSingle (alpha gamma q q1 : Rat) (rew norm : List Rat) : Rat :=
+  q + (coopPerAgent alpha gamma q q1 rew.length rew norm).foldl (· + ·) 0
+
+/-- `MDP::QLearning::stepUpdateQ`: `q(s,a) += alpha * (rew + discount * max_a' q(s1,a') - q(s,a))` -/
+def qlUpdate (alpha gamma q qmax r : Rat) : Rat := q + alpha * (r + gamma * qmax - q)
+
 end AITB.Factored
